@@ -209,6 +209,23 @@ def _generic_shared(rng, tier, i):
     slots = _slots(root)
     if len(slots) < 2:
         return None
+    touched = rng.random() < 0.5
+    if touched:
+        # the tree has been looked at before the shared node is installed (children, values, keys, edges ...): a derived
+        # list that an accessor caches must not be what the walk later trusts instead of the real children
+        for node in [root] + [g_() for _, g_, _ in slots]:
+            dense_ok = not (probes.base_kind(node) == "SparselyBin" and node.bins and int(max(node.bins)) - int(min(node.bins)) > 5000)
+            for a_ in ("children", "values", "keys", "size", "bins", "thresholds", "centers", "n_bins", "n_dim", "indexes", "range", "bin_edges", "bin_centers", "bin_entries", "num_bins", "bin_width", "bin_labels"):
+                if not dense_ok and a_ in ("bin_edges", "bin_centers", "bin_entries", "num_bins", "indexes", "range"):
+                    continue  # a sparse histogram spanning 2**63 bins: its dense views cannot be materialised
+                try:
+                    v_ = getattr(node, a_, None)
+                    if callable(v_):
+                        v_ = v_()
+                    if v_ is not None and not isinstance(v_, (int, float, str)):
+                        len(v_)
+                except Exception:  # noqa: BLE001
+                    pass
     for _ in range(40):
         (p1, g1, s1), (p2, g2, s2) = rng.sample(slots, 2)
         if p1[: len(p2)] == p2 or p2[: len(p1)] == p1:
@@ -218,7 +235,7 @@ def _generic_shared(rng, tier, i):
         s1(x)
         s2(x)
         if g1() is x and g2() is x:
-            return root, x, sp, "generic:%s+%s" % (p1[-1].split("[")[0], p2[-1].split("[")[0]), "/".join(p1) + " & " + "/".join(p2) + " (root %s)" % pre
+            return root, x, sp, "generic:%s+%s" % (p1[-1].split("[")[0], p2[-1].split("[")[0]), "/".join(p1) + " & " + "/".join(p2) + " (root %s%s)" % (pre, ", views read before" if touched else "")
     return None
 
 
